@@ -543,3 +543,7 @@ def run(ctx, shard):
             except Exception as e:
                 ctx.inconclusive(f'driver-error/{type(e).__name__}')
     probe.finish()
+
+
+# thorough tier: every random shard is run this many times with independent random streams (see vmon/runner.py get_shards)
+THOROUGH_REPEAT = 12
